@@ -12,7 +12,14 @@ git -C /repo worktree add -q --detach "$S/repo" HEAD || exit 2
 if ! git -C "$S/repo" apply "$PATCH"; then echo "PATCH DOES NOT APPLY"; git -C /repo worktree remove --force "$S/repo"; rm -rf "$S"; exit 2; fi
 mkdir -p "$S/verif"
 mkdir -p /verif/work
-flock /verif/work/cargo.lock flock /verif/work/lake.lock rsync -a --exclude .git --exclude work --exclude replays --exclude incremental /verif/ "$S/verif/"
+# VERIF_SRC (default: /tmp/verif_snap if it exists, else /verif): a quiescent snapshot of /verif to check against, so
+# that builders may keep editing /verif while seeds are being checked
+SRC=${VERIF_SRC:-$([ -d /tmp/verif_snap ] && echo /tmp/verif_snap || echo /verif)}
+if [ "$SRC" = /verif ]; then
+  flock /verif/work/cargo.lock flock /verif/work/lake.lock rsync -a --exclude .git --exclude work --exclude replays --exclude incremental /verif/ "$S/verif/"
+else
+  rsync -a --exclude .git --exclude work --exclude replays --exclude incremental "$SRC/" "$S/verif/"
+fi
 TIER=${TIER:-quick}
 rc=0
 for P in "$@"; do
